@@ -81,6 +81,7 @@ func TestC03Shutdown(t *testing.T) {
 		c.ClassIf(len(must) > 0, "survivors_checked")
 		c.ClassIf(w.St.BL.PopFronts > 0, "rotated")
 		c.ClassIf(h.FaultsInjected > 0, "faults_injected")
+		c.ClassIf(h.FinalSyncFaults > 0, "final_shutdown_sync_fails_after_upload_acked_during_first_shutdown_sync")
 		c.ClassIf(cfg.Hierarchical, "hierarchical")
 		c.ClassIf(cfg.Mutable, "ac_policy")
 		if parkedAtShutdown > 0 && len(must) > 0 {
